@@ -789,7 +789,7 @@ def gen_lean(ob, ns, skip=()):
         text = "%s\ntheorem %s %s %s :\n    %s := by\n  c07_use [%s] [%s]\n" % (
             doc, thm_name(k), vs, hy, stmt, ", ".join(topl), ", ".join(alll))
         if k in skip:
-            out.append("/- OPEN (not a theorem): %s\n%s\n-/\n" % (skip[k], text.replace("/-", "/ -").replace("-/", "- /")))
+            out.append("/- OPEN (not a theorem): %s\n%s\n-/\n" % (skip[k], text.replace("/-", "/ -").replace("-/", "- /").replace("\ntheorem ", "\nopen_obligation ")))
             opened.append(k)
         else:
             out.append(text)
